@@ -77,7 +77,7 @@ func (hostsafe) Units(tier string) int {
 	if tier == "thorough" {
 		return 6000000
 	}
-	return 400000
+	return 300000
 }
 
 func (hostsafe) Describe() core.EngineInfo {
